@@ -84,6 +84,20 @@ def check(tier, seed, replay=None):
             {"id": "h_unnamed_between", "sense": "min", "obj": [2, 3], "off": 0, "den": 1, "vars": [NNv("v0"), NNv("v1")],
              "rows": [R_([1, 0], "ge", 1, "a"), R_([1, 1], "le", 9, ""), R_([0, 1], "ge", 2, "b")]},
         ]
+    if not replay:
+        # the same models with every cost multiplied by 128 or 300: a price is a rate of change of the OBJECTIVE, so it
+        # scales with the costs (a solver front end that conditions the objective has to scale the prices back)
+        scaled = []
+        for i, c in enumerate(cases):
+            if i % 6 == seed % 6 or c["id"].startswith("h_"):
+                k = 128 if i % 2 == 0 else 300
+                c2 = copy.deepcopy(c)
+                c2["obj"] = [a * k for a in c2["obj"]]
+                c2["off"] = c2["off"] * k
+                c2["id"] += f"_x{k}"
+                scaled.append(c2)
+        meta["scaled_costs"] = {"cases": len(scaled)}
+        cases += scaled
     for c in cases:
         t = lp_text(c)
         if t:
